@@ -13,12 +13,20 @@ PROPS = {
                  'non-empty span of the buffer, rule start/end pairing also on error paths, isWordChar table',
         'not_decided': ['that a later change to P re-executes the command (paper lemma L1)', 'file reading'],
     },
+    'C17': {
+        'units': ['ninja_lex'],
+        'design_ref': 'DESIGN.md section 4, C17',
+        'claim': 'Ninja lexer: a keyword kind is produced exactly when the token bytes are the whole keyword, every byte value '
+                 '0x00-0xFF is returned as itself (end of file only at the true end), identifier-specific mode never yields keywords',
+        'not_decided': ['agreement of scoping / variable evaluation with Ninja itself (needs Ninja as oracle)', 'include/subninja scoping', 'the parser'],
+    },
     'C19': {
-        'units': ['mkdeps', 'depinfo'],
-        'safety': ['mkdeps', 'depinfo'],
+        'units': ['mkdeps', 'depinfo', 'ninja_lex'],
+        'safety': ['mkdeps', 'depinfo', 'ninja_lex'],
         'design_ref': 'DESIGN.md section 4, C19',
         'claim': 'every dereference in the hand-written parsers is inside the supplied buffer (no terminator assumed), '
-                 'every loop terminates (decreases clauses), cursors stay in [begin,end]',
+                 'every loop terminates (decreases clauses), cursors stay in [begin,end]; Ninja lexer tokens tile the buffer, only blanks are skipped, '
+                 'EndOfFile only at the true end, every other token consumes at least one byte',
         'not_decided': ['the YAML BuildFile loader', 'rule-variable recursion in ManifestLoader'],
     },
 }
